@@ -134,4 +134,113 @@ theorem add_with_marker_keeps_status (fl : Flavour) (ops : List Op) (w : WlRec) 
   have := addWorkload_marker_effect (wf_run fl ops _ wf_empty) w a e x i c exp ha he hname hmark hfresh h n2
   exact ⟨this.1, this.2.2⟩
 
+/-! ### the remaining transitions (`plainAdd`, `remove`, `finish`) on the reference store -/
+
+-- `Eru.Store.addWorkload_plain_effect`, `removeWorkload_effect`, `deleteProcessing_effect`
+-- (Eru/Store/ProofsDeployRef.lean): AddWorkload without marker = +1 recorded on its node,
+-- RemoveWorkload = −1 recorded iff the deploy key was there, DeleteProcessing = the marker's
+-- remaining count leaves the in-progress number and the marker key is gone; markers resp.
+-- recorded workloads are untouched otherwise.
+
+/-! ### fixed prior: one deployment, no foreign adds -/
+
+theorem planned_added (c : Cap) (i : String) : (c.added i).planned = c.planned := by
+  unfold Cap.added Cap.planned
+  simp only [List.map_map]
+  congr 1
+  apply List.map_congr_left
+  intro d _
+  by_cases h : (d.ident == i) = true <;> simp [Function.comp, h]
+
+/-- body of ONE deployment `i`: adds under its marker and removals (rollbacks or removals of
+    older workloads) — no foreign adds, no other deployment -/
+def OwnBody (i : String) : List DOp → Prop
+  | [] => True
+  | .add j :: t => j = i ∧ OwnBody i t
+  | .remove :: t => OwnBody i t
+  | _ :: _ => False
+
+theorem own_body_inv (i : String) (P c : Int) (body : List DOp) :
+    ∀ s : DSt, Inv s → s.cap.prior ≤ P → s.cap.planned = c → s.cap.active.map (·.ident) = [i] →
+      OwnBody i body → Enabled s body →
+      Inv (s.run body) ∧ (s.run body).cap.prior ≤ P ∧ (s.run body).cap.planned = c ∧
+      (s.run body).cap.active.map (·.ident) = [i] := by
+  induction body with
+  | nil => intro s h hp hc hi _ _; exact ⟨h, hp, hc, hi⟩
+  | cons op t ih =>
+    intro s h hp hc hi hb he
+    cases op with
+    | add j =>
+      exact ih _ (inv_step h _ he.1) (by simpa [DSt.step, Cap.added] using hp)
+        (by simp only [DSt.step]; rw [planned_added]; exact hc)
+        (by simp only [DSt.step, Cap.added, idents_added]; exact hi) hb.2 he.2
+    | remove =>
+      exact ih _ (inv_step h _ he.1) (by simp only [DSt.step, Cap.removed]; omega)
+        (by simpa [DSt.step, Cap.removed, Cap.planned] using hc)
+        (by simpa [DSt.step, Cap.removed] using hi) hb he.2
+    | create _ _ => exact absurd hb (by simp [OwnBody])
+    | plainAdd => exact absurd hb (by simp [OwnBody])
+    | finish _ => exact absurd hb (by simp [OwnBody])
+
+/-- **single_deployment_bounds** (fixed prior): start from a state where nothing is in progress,
+    so the prior count is simply the recorded count `s0.recorded`; run ONE deployment — marker
+    with `c` planned, then any admissible mix of adds under it and removals — then at that point
+    `recorded ≤ status ≤ s0.recorded + c`.  (`Cap.prior` is a ghost that is re-based by removals
+    and by finished deployments; here it never exceeds the fixed prior.) -/
+theorem single_deployment_bounds (s0 : DSt) (h0 : Inv s0) (hidle : s0.cap.active = []) (i : String) (c : Int)
+    (body : List DOp) (hb : OwnBody i body) (he : Enabled s0 (.create i c :: body)) :
+    let s := s0.run (.create i c :: body)
+    s.recorded ≤ s.status ∧ s.status ≤ s0.recorded + c := by
+  have hrec : s0.recorded = s0.cap.prior := by have := h0.recd; rw [hidle] at this; simpa using this
+  have h1 := inv_step h0 _ he.1
+  have hpl : (s0.step (.create i c)).cap.planned = c := by
+    simp [DSt.step, Cap.start, Cap.planned, hidle]
+  have := own_body_inv i s0.cap.prior c body _ h1 (by simp [DSt.step, Cap.start]) hpl
+    (by simp [DSt.step, Cap.start, hidle]) hb he.2
+  obtain ⟨hinv, hp, hc, _⟩ := this
+  have hb2 := inv_bounds hinv
+  have hs := inv_status hinv
+  simp only [withinBounds, Bool.and_eq_true, decide_eq_true_eq] at hb2
+  simp only [DSt.run]
+  constructor
+  · exact hb2.1
+  · rw [hs, hc, hrec]; omega
+
+theorem enabled_append (s : DSt) (a b : List DOp) (h : Enabled s (a ++ b)) :
+    Enabled s a ∧ Enabled (s.run a) b := by
+  induction a generalizing s with
+  | nil => exact ⟨trivial, h⟩
+  | cons op t ih => exact ⟨⟨h.1, (ih _ h.2).1⟩, (ih _ h.2).2⟩
+
+theorem run_append (s : DSt) (a b : List DOp) : s.run (a ++ b) = (s.run a).run b := by
+  induction a generalizing s with
+  | nil => rfl
+  | cons op t ih => exact ih _
+
+/-- and once that deployment deletes its marker the status is the recorded count again and no
+    marker is left -/
+theorem single_deployment_return (s0 : DSt) (h0 : Inv s0) (hidle : s0.cap.active = []) (i : String) (c : Int)
+    (body : List DOp) (hb : OwnBody i body) (he : Enabled s0 (.create i c :: (body ++ [.finish i]))) :
+    let s := s0.run (.create i c :: (body ++ [.finish i]))
+    s.status = s.recorded ∧ s.markers = [] := by
+  have h1 := inv_step h0 _ he.1
+  have hpl : (s0.step (.create i c)).cap.planned = c := by simp [DSt.step, Cap.start, Cap.planned, hidle]
+  have hea := enabled_append _ body [.finish i] he.2
+  obtain ⟨hinv, _, _, hid⟩ := own_body_inv i s0.cap.prior c body _ h1 (by simp [DSt.step, Cap.start]) hpl
+    (by simp [DSt.step, Cap.start, hidle]) hb hea.1
+  simp only [DSt.run, run_append]
+  have hfin := inv_step hinv (.finish i) trivial
+  apply inv_idle hfin
+  -- the only running deployment is `i`
+  generalize ((s0.step (.create i c)).run body) = s at hid
+  simp only [DSt.step, Cap.finish]
+  cases hact : s.cap.active with
+  | nil => rfl
+  | cons d t =>
+    rw [hact] at hid
+    simp only [List.map_cons, List.cons.injEq, List.map_eq_nil_iff] at hid
+    obtain ⟨hd, ht⟩ := hid
+    subst ht
+    simp [hd]
+
 end Eru.Props.C13
